@@ -271,10 +271,19 @@ class Gen:
                     continue
                 k = r.random()
                 if t == 'bv4' and k < 0.25:
-                    s = new_sig('bv8')
+                    # the instance drives a slice; the signal has a default and its other bits (never driven) are read
+                    s = new_sig('bv8', default_src('bv8', r) if r.random() < 0.6 else None)
                     hi = r.choice([7, 5, 3])
                     actuals[n] = (f"{s}[{hi}:{hi - 3}]", s, (hi, hi - 3))
-                    new_avail.append((s, 'bv8', (hi, hi - 3)))
+                    rest = {7: [(f"{s}[3:0]", 'bv4')], 3: [(f"{s}[7:4]", 'bv4')], 5: [(f"{s}[7]", 'bit'), (f"{s}[0]", 'bit')]}[hi]
+                    if nd.body[-1].startswith(f"    {s} = Signal") and '"' in nd.body[-1]:
+                        # with a default only the never-driven bits are read: the initial value of the driven bits is the
+                        # child's port value in the hierarchy but the signal's default in the inlined rendering (the same
+                        # documented asymmetry as for whole signals, whose default the compiler removes)
+                        for ea in rest:
+                            new_avail.append((ea[0], ea[1], 'alias'))
+                    else:
+                        new_avail.append((s, 'bv8', (hi, hi - 3)))
                 elif t == 'bv4' and k < 0.4 and self.style != 'noviews':
                     s = new_sig('u4')
                     actuals[n] = (f"{s}.bitvector", s, None)
@@ -313,14 +322,14 @@ class Gen:
             L.append(f"        {child.name}_body(M, {kw})")
         nd.insts.append({'child': child, 'actuals': actuals, 'order': order, 'inline': inline})
         for s, t, sel in new_avail:
-            if sel is None:
+            if sel is None or sel == 'alias':
                 avail.append((s, t))
             else:
                 # only the driven part may be read (the rest stays 'U' in both renderings, but keep it out of expressions)
                 pass
         # partially driven roots are read through exactly the driven slice
         for s, t, sel in new_avail:
-            if sel is not None:
+            if sel is not None and sel != 'alias':
                 hi, lo = sel
                 nd_alias = f"{s}[{hi}:{lo}]" if hi != lo else f"{s}[{hi}]"
                 avail.append((nd_alias, 'bv4' if hi != lo else 'bit'))
